@@ -248,8 +248,8 @@ def t_g5(ctx: Ctx, rule: str) -> None:
     if len(defs) == 1 and isinstance(defs[0].value, ast.ListComp) and len(defs[0].value.generators) == 1:
         gen = defs[0].value.generators[0]
         it = ast.unparse(gen.iter)
-        cond = norm.conj([norm.formula(c, rename={gen.target.id: "$it"}) for c in gen.ifs]) if isinstance(gen.target, ast.Name) else None
-        want = norm.conj([("atom", "$it.is_flat()"), ("not", ("atom", "$it.is_unrolled()"))])
+        cond = norm.conj([norm.formula(c, rename={gen.target.id: "_IT"}) for c in gen.ifs]) if isinstance(gen.target, ast.Name) else None
+        want = norm.conj([("atom", "_IT.is_flat()"), ("not", ("atom", "_IT.is_unrolled()"))])
         ok = it == "self.nodes" and cond is not None and norm.equivalent(cond, want) \
             and isinstance(defs[0].value.elt, ast.Name) and defs[0].value.elt.id == gen.target.id
     ctx.record(rule + "c", "PROV", TOT, first_line(defs[0]) if defs else "<missing unexplored_nodes>", ok,
@@ -793,3 +793,9 @@ def t_e1(ctx: Ctx, rule: str) -> None:
     ok = len(gathers) == 1 and len(ruc) == 1 and any(g is x for g in gathers for x in ast.walk(ruc[0]))
     ctx.record(rule, "OWNER", fref, "run_until_complete(... asyncio.gather(*traversals) ...)", ok, {},
                "" if ok else "the workers' traversals are no longer gathered on a single event loop run")
+
+
+def PathEnum_raised(view) -> str | None:
+    from ..paths import PathEnum
+
+    return PathEnum._raised_name(view.path.exit_node) if view.path.exit == "raise" and view.path.exit_node is not None and isinstance(view.path.exit_node, ast.Raise) else None
